@@ -284,6 +284,64 @@ def d1_independent_copies(F, r):
         r.fail("Tour::deep_copy activities", "activities are not deep-copied", F.loc(DEEP_COPIES[0]))
 
 
+# preconditions that keep the depot ends in place: (function, tested call, panics when the test answers)
+TOUR_GUARDS = [
+    ("set_start", "is_none", False, "the start must be a depot activity (no job)"),
+    ("set_start", "is_empty", False, "the start is set on an empty tour only (it is activity 0)"),
+    ("set_end", "is_none", False, "the end must be a depot activity (no job)"),
+    ("set_end", "is_empty", True, "the end is set after the start"),
+    ("insert_at", "is_some", False, "only job activities are inserted between the depot ends"),
+    ("insert_at", "is_empty", True, "activities are inserted into a tour that has its start"),
+]
+
+
+def g1_tour_guards(F, r):
+    """depot ends stay in place: the start is the first activity ever pushed, the end closes the tour, everything inserted in between carries a job — each mutator keeps
+    the assertion that enforces its precondition (the assertion's test and polarity are checked, not its text)"""
+    from . import c01
+    T = "vrp_core::models::solution::tour::Tour::"
+    for fname, test, panics_on, why in TOUR_GUARDS:
+        fid = T + fname
+        if fid not in F.fns:
+            raise AnchorError(fid)
+        fn = F.fns[fid]
+        pan = {bi for bi, t in mir.calls(fn) if "panic" in t["callee"]}
+        P = mir.preds(fn)
+        found = False
+        for b in pan:
+            for q in P[b]:
+                tt = fn["bbs"][q]["t"]
+                if tt["k"] != "switch" or not mir.is_place(tt["o"]):
+                    continue
+                toks = c01._toks(fn, tt["o"])
+                if test not in toks:
+                    continue
+                # value of the tested bool on the edge into the panic block
+                on = None
+                for v, tb in tt["tg"]:
+                    if tb == b:
+                        on = bool(v)
+                if on is None and tt["else"] == b:
+                    listed = [v for v, _ in tt["tg"]]
+                    on = (0 in listed)          # else-edge of a switch listing `false` is the `true` edge
+                neg = any(st["r"]["k"] == "un" and st["r"].get("op") == "Not" for st in fn["bbs"][q]["s"] if st["d"]["l"] == tt["o"]["l"])
+                if neg and on is not None:
+                    on = not on
+                if on == panics_on:
+                    found = True
+        inst = f"Tour::{fname}: {test}"
+        if found:
+            r.ok(inst, why)
+        else:
+            r.fail(inst, f"the precondition `{why}` is no longer asserted (test on `{test}` that panics when it answers {panics_on}): depot ends can be displaced or duplicated", F.loc(fid))
+    fn = F.fns[T + "set_end"]
+    closes = [st for _, _, st in mir.stmts(fn) if mir.proj_fields(st["d"]) and mir.proj_fields(st["d"])[-1][1] == "is_closed" and mir.is_const(st["r"]["o"][0]) and st["r"]["o"][0]["c"] == "true"]
+    if closes:
+        r.ok("Tour::set_end: closes", "is_closed = true (leg enumeration then has no extra open-end leg)")
+    else:
+        r.fail("Tour::set_end: closes", "setting the end no longer marks the tour closed: legs() adds a bogus open-end leg", F.loc(T + "set_end"))
+
+
 def run(ctx):
     ctx.explanation = (
         "Structural well-formedness: representation fields are private (E1), every Tour method that structurally mutates `activities` "
@@ -293,6 +351,7 @@ def run(ctx):
     ctx.not_decided = "depot ends in place, leg enumeration, counts (value-level index arithmetic); reference-model equivalence along histories."
     ctx.assumptions += ["safe Rust: an owned value built from &self can only clone", "std HashSet/Vec contracts"]
     ctx.run("C14-E1", "representation fields of Tour / Registry / RegistryContext are private", e1_privacy, floor=8)
+    ctx.run("C14-G1", "Tour mutators keep the preconditions that hold the depot ends in place", g1_tour_guards, floor=7)
     ctx.run("C14-E2", "Tour mutators keep `jobs` in sync with `activities` on every path", e2_paired_mutation, floor=4)
     ctx.run("C14-E3", "job identity of an activity is immutable after construction", e3_job_identity, floor=1)
     ctx.run("C14-R1", "registry: available set mutated only by use/free with propagated results; get_route gated on use_actor; keep_routes frees", r1_registry, floor=6)
